@@ -9,10 +9,12 @@
      the operand (exact multiplication and comparison, inside the exponent limits).
    The Cbrt oracle is the defining inequality itself ((c-1)^3 <= x <= (c+1)^3 on exactly scaled integers, and
    k^3 = x for perfect cubes found by an integer cube root whose result is verified by cubing).
-   NOT proven: that the Newton iteration always lands within reach of the final correction. *)
+   - on the model: a fixed point of sqrtCorrect's correction step is the half-even rounding of the square root
+     (exact arithmetic of the step proven from the Precision-0 theorems of Add and Mul).
+   NOT proven: that the Newton iteration always lands within reach of the (at most four) correction steps. *)
 From Coq Require Import ZArith Bool.
 From Apd Require Import Generated.Consts Model.Base Model.NumDigits Model.Decimal Model.Context Model.Roots Oracle.JudgeRoots
-  Proofs.Core Proofs.SetExponent Proofs.RootsProofs Proofs.SqrtExact.
+  Proofs.Core Proofs.SetExponent Proofs.RootsProofs Proofs.SqrtExact Proofs.SqrtFix Spec.SpecZ Spec.Order Proofs.P0Proofs.
 Open Scope Z_scope.
 
 Theorem C11_sqrt_oracle_is_half_even_rounding k Y : 0 < Y -> 1 <= k -> 10 ^ k <= Z.sqrt Y ->
@@ -37,6 +39,46 @@ Theorem C11_sqrt_inexact_iff_square_differs est : est_in_range est -> forall nc 
   (Inexact f = false <-> same_number (coeff d2 * coeff d2) (exp d2 + exp d2) (coeff x) (exp x)).
 Proof. exact (sqrt_correct_inexact_iff est). Qed.
 Print Assumptions C11_sqrt_inexact_iff_square_differs.
+
+(* sqrtCorrect's loop on the model: a value that one more correction step leaves where it is IS the half-even rounding of
+   the square root to p digits - (d - u_lo/2)^2 <= x <= (d + u/2)^2 on the exact decimals (dplus: exact sum/difference,
+   dsq: exact square, cmp_spec: exact comparison), a tie on the right only with an even last digit, on the left only with
+   an even last digit or d a power of ten (where the unit below is u/10).  sum_ok / sq_ok: the six exact intermediate
+   values stay inside the package's exponent limits. *)
+Theorem C11_sqrt_correction_fixed_point_is_half_even est : est_in_range est -> forall p d x,
+  let nd := ndigits (coeff d) in
+  let ue := exp d - (p - nd) in
+  let ulp := mkDec Finite false ue 1 in
+  let half := mkDec Finite false (ue - 1) 5 in
+  let pow10 := coeff d =? 10 ^ (nd - 1) in
+  let ulp_lo := if pow10 then mkDec Finite false (ue - 1) 1 else ulp in
+  let half_lo := if pow10 then mkDec Finite false (ue - 2) 5 else half in
+  let hi := dplus d half false in
+  let lo := dplus d half_lo true in
+  form_of d = Finite -> neg d = false -> 0 < coeff d ->
+  form_of x = Finite -> 0 <= coeff x ->
+  sum_ok d half false -> sum_ok d half_lo true -> sum_ok d ulp false -> sum_ok d ulp_lo true -> sq_ok hi -> sq_ok lo ->
+  sqrt_fix est 1 p d x = Ok (EdOk _ d) ->
+  0 <= cmp_spec (dsq hi) x /\ (cmp_spec (dsq hi) x = 0 -> last_digit_odd d ue = false) /\
+  cmp_spec (dsq lo) x <= 0 /\ (cmp_spec (dsq lo) x = 0 -> last_digit_odd d ue = false \/ pow10 = true).
+Proof. exact (sqrt_fix_fixed_point est). Qed.
+Print Assumptions C11_sqrt_correction_fixed_point_is_half_even.
+
+(* non-vacuity of its hypotheses: d = 1.4142, x = 2, p = 5 is such a fixed point inside the limits; 1.4143 is not *)
+Example C11_fixed_point_example :
+  let d := mkDec Finite false (-4) 14142 in
+  let x := mkDec Finite false 0 2 in
+  let half := mkDec Finite false (-5) 5 in
+  let ulp := mkDec Finite false (-4) 1 in
+  sqrt_fix est_exact 1 5 d x = Ok (EdOk _ d) /\
+  sqrt_fix est_exact 1 5 (mkDec Finite false (-4) 14143) x <> Ok (EdOk _ (mkDec Finite false (-4) 14143)) /\
+  sum_ok d half false /\ sum_ok d half true /\ sum_ok d ulp false /\ sum_ok d ulp true /\
+  sq_ok (dplus d half false) /\ sq_ok (dplus d half true).
+Proof.
+  cbv zeta. split; [vm_compute; reflexivity|]. split; [vm_compute; discriminate|].
+  unfold sum_ok, sq_ok, exact_in_range, SetExponent.in_lim.
+  repeat split; try reflexivity; vm_compute; intros H; discriminate H.
+Qed.
 
 (* non-vacuity: the model's Sqrt of 6.25 at Precision 5 is 2.5000 with no Inexact; of 2 it is 1.4142 with Inexact *)
 Example C11_model_examples :
